@@ -27,6 +27,7 @@ func init() {
 		Families: []Family{
 			witnessFamily("C03"),
 			{Name: "grid", N: func(string) int { return len(c03Grid()) }, Run: c03GridRun},
+			{Name: "big", N: bigN("C03"), Run: bigRun("C03")},
 			{Name: "rand", N: tierN(120000, 6000000), Run: c03Random},
 		},
 	})
